@@ -593,6 +593,8 @@ def _gen_cases(tier, seed):
         cases.append({"k": "al", "d": d})
     # structural tie of the operator / part-select lowering models (ir_op2, choose_operands, emit_unary, emit_part)
     cases += cell_cases(thorough)
+    # structural tie of the emit_assign model: the real NetlistEmitter.emit_assign on generated targets
+    cases += ea_cases(seed, 360 if not thorough else 6000)
     return cases
 
 
@@ -1019,6 +1021,116 @@ def al_term(d):
     return f"k_al\n {tab_t}\n {cells_t}\n {calls_t}"
 
 
+# =============================================================================================== emit_assign tie
+EA_TSIGS = [[4, False], [6, True], [3, False], [1, False], [8, False]]      # target signals 0..4
+EA_SSIGS = [[0, False], [1, False], [2, False], [3, False]]                 # selector signals 5..8
+
+
+def ea_target(r, depth):
+    """a random assignment target over the EA signals: Signal / Slice / Part / Concat / choice (SwitchValue) / u, s
+    nested up to `depth`; selectors are signals, slices of signals or constants (so their nets are known)"""
+    shapes = EA_TSIGS + EA_SSIGS
+
+    def sel(maxw):
+        q = r.random()
+        j = r.randrange(len(EA_SSIGS))
+        w = EA_SSIGS[j][0]
+        if q < 0.6:
+            return ["s", len(EA_TSIGS) + j]
+        if q < 0.8 and w >= 1:
+            lo = r.randrange(0, w)
+            return ["sl", ["s", len(EA_TSIGS) + j], lo, r.randrange(lo, w + 1)]
+        cw = r.randrange(0, maxw + 1)
+        return ["c", r.randrange(0, 1 << cw) if cw else 0, cw, False]
+
+    def go(d_):
+        q = r.random()
+        if d_ <= 0 or q < 0.2:
+            return ["s", r.randrange(len(EA_TSIGS))]
+        if q < 0.4:
+            a = go(d_ - 1)
+            w = G.pyshape(a, shapes)[0]
+            lo = r.randrange(0, w + 1)
+            return ["sl", a, lo, r.randrange(lo, w + 1)]
+        if q < 0.6:
+            return ["pt", go(d_ - 1), sel(3), r.randrange(0, 5), r.choice((1, 1, 2, 3))]
+        if q < 0.75:
+            return ["cat", [go(d_ - 1) for _ in range(r.randrange(0, 4))]]
+        if q < 0.9:
+            t = sel(2)
+            tw = G.pyshape(t, shapes)[0]
+            cs = []
+            n = r.randrange(1, 4)
+            for ci in range(n):
+                if ci == n - 1 and r.random() < 0.5:
+                    ps = None
+                else:
+                    ps = ["".join(r.choice("01-" if r.random() < 0.3 else "01") for _ in range(tw)) for _ in range(r.randrange(0, 3))]
+                cs.append([ps, go(d_ - 1)])
+            return ["sw", t, cs]
+        a = go(d_ - 1)
+        if G.pyshape(a, shapes)[0] == 0:
+            return a
+        return ["o1", r.choice("us"), a]
+    return go(depth)
+
+
+def ea_cases(seed, n):
+    r = random.Random(seed + 4041)
+    out = []
+    per = 12
+    for k in range(0, n, per):
+        out.append({"k": "ea", "targets": [ea_target(r, r.randrange(1, 4)) for _ in range(per)]})
+    return out
+
+
+def ea_real(c):
+    """call the REAL NetlistEmitter.emit_assign(lhs, 0, rhs, const 1) on every target and read the drivers"""
+    from amaranth.hdl import _ir, _nir, Signal, Shape
+    shapes = EA_TSIGS + EA_SSIGS
+    out, tabn_all, rhs_all = [], None, []
+    for t in c["targets"]:
+        sigs = [Signal(Shape(w, sg), name=f"x{k}") for k, (w, sg) in enumerate(shapes)]
+        netlist = _nir.Netlist()
+        netlist.add_module(None, ("top",), src_loc=None, cell_src_loc=None)
+        em = _ir.NetlistEmitter(netlist, None)
+        ids = _Ids()
+        tabn = [ids.nets(em.emit_signal(sg_)) for sg_ in sigs]
+        lhs = G.build(t, sigs)
+        rhs = _nir.Value(_nir.Net.from_late(-5000 - k) for k in range(len(lhs)))
+        rhs_ids = ids.nets(rhs)
+        em.emit_assign(0, None, lhs, 0, rhs, _nir.Net.from_const(1), src_loc=None)
+
+        def cond(net):
+            net = _nir.Net.ensure(net)
+            if net == _nir.Net.from_const(1):
+                return [0]
+            cell = netlist.cells[net.cell]
+            assert isinstance(cell, _nir.Match)
+            enc = [1] + cond(cell.en) + [len(cell.value)] + ids.nets(cell.value) + [len(cell.patterns)]
+            for pl in cell.patterns:
+                enc.append(len(pl))
+                for p in pl:
+                    enc += [len(p)] + [PATCODE[ch] for ch in p]
+            return enc + [net.bit]
+        for k, sg_ in enumerate(sigs):
+            for drv in em.drivers.get(sg_, {}).values():
+                for a in drv.assignments:
+                    out += cond(a.cond) + [a.start, len(a.value)] + ids.nets(a.value) + [-4]
+            out.append(-5)
+        out.append(-8)
+        tabn_all = tabn
+        rhs_all.append(rhs_ids)
+    return out, tabn_all, rhs_all
+
+
+def ea_term(c):
+    shapes = EA_TSIGS + EA_SSIGS
+    _, tabn, rhs_all = ea_real(c)
+    tg = "; ".join(f"({G.coq_expr(t, shapes)}, {_zl(rh)})" for t, rh in zip(c["targets"], rhs_all))
+    return "k_emit_assign [" + "; ".join(_zl(x) for x in tabn) + "]\n [" + tg + "]"
+
+
 # =============================================================================================== cell tie
 CELL_KINDS = ["$not", "$neg", "$reduce_and", "$reduce_or", "$reduce_xor", "$reduce_bool", "$add", "$sub", "$mul",
               "$divfloor", "$modfloor", "$shl", "$shr", "$sshr", "$shift", "$and", "$or", "$xor", "$eq", "$ne", "$lt",
@@ -1134,6 +1246,11 @@ def run_impl(c):
         return print_texts(c["specs"])[1]
     if c["k"] == "cell":
         return cell_real(c)
+    if c["k"] == "ea":
+        try:
+            return ea_real(c)[0]
+        except Exception as e:
+            return [-1, sum(map(ord, type(e).__name__))]
     d = c["d"]
     if c["k"] == "al":
         try:
@@ -1165,6 +1282,8 @@ def coq_term(c):
     import rtlil_read as R
     if c["k"] == "cell":
         return cell_term(c)
+    if c["k"] == "ea":
+        return ea_term(c)
     d = c["d"]
     if c["k"] == "al":
         try:
@@ -1232,6 +1351,8 @@ def coq_term(c):
 def classify(c):
     if c["k"] == "cell":
         return "cell:" + c["op"]
+    if c["k"] == "ea":
+        return "ea:targets"
     d = c["d"]
     if c["k"] == "op":
         t = d["mods"][0]["blocks"][0][1][0][2]
@@ -1270,6 +1391,8 @@ def classify(c):
 def nontrivial(c, obs):
     if c["k"] == "cell":
         return bool(obs) and -1 not in obs
+    if c["k"] == "ea":
+        return 1 in obs
     if not obs or obs[0] == -1:
         return False
     if c["k"] == "al":
@@ -1319,7 +1442,7 @@ def split_answers(d, l):
 def known_finding(c, obs, model):
     """A disagreement of the first run (RTLIL as published vs simulator) is the listed finding only if the model run
     under the OTHER reading of $shift with A_SIGNED reproduces the simulator EXACTLY, on every row and column."""
-    if c["k"] in ("al", "cell"):
+    if c["k"] in ("al", "cell", "ea"):
         return None
     d = c["d"]
     so, sm = split_answers(d, obs), split_answers(d, model)
@@ -1444,13 +1567,14 @@ def extra(tier, seed, findings):
     n_al = sum(1 for c in cases if c["k"] == "al")
     n_cell = sum(len(c["ents"]) for c in cases if c["k"] == "cell")
     for c in cases:
-        if c["k"] in ("al", "cell"):
+        if c["k"] in ("al", "cell", "ea"):
             continue
         d = c["d"]
         nobs = len(d["sigs"]) + len(d["outs"]) + (2 * len(d["mem"]["reads"]) if d.get("mem") else 0)
         comparisons += (len(d["stim"]) + 1) * nobs
         steps += len(d["stim"])
-    cov = {"programs": len([c for c in cases if c["k"] not in ("al", "cell")]), "cell_tie_entries": n_cell, "disagreements_checked": comparisons, "stimulus_steps": steps,
+    cov = {"programs": len([c for c in cases if c["k"] not in ("al", "cell", "ea")]), "cell_tie_entries": n_cell,
+           "emit_assign_tie_targets": sum(len(c["targets"]) for c in cases if c["k"] == "ea"), "disagreements_checked": comparisons, "stimulus_steps": steps,
            "assignment_list_tie_designs": n_al,
            "generator_dropped_designs": dict(DROPS),
            "print_format_observations": [{"spec": sp, "simulator_text": o, "format_string": f.rstrip("\n"),
